@@ -23,7 +23,7 @@ Next == Extend
 LineAlphabet == {"a", "b", ",", ":", " ", "TAB", "e~"}
 AllDelims == {AwkD,
               [kind |-> "str", id |-> ","], [kind |-> "str", id |-> ", "], [kind |-> "str", id |-> "TAB"],
-              [kind |-> "re", id |-> "[,:]"], [kind |-> "re", id |-> ",+"], [kind |-> "re", id |-> ",|, "],
+              [kind |-> "re", id |-> "[,:]"], [kind |-> "re", id |-> ",+"], [kind |-> "re", id |-> ",|, "], [kind |-> "re", id |-> "b*"],
               [kind |-> "re", id |-> ","], [kind |-> "re", id |-> ", "], [kind |-> "re", id |-> "TAB"]}
 (* AWK style on characters that are NOT AWK blanks but look like white space to something else: a second AWK         *)
 (* "delimiter" record (same kind, other id: the harness and FzfFields only look at the kind) that carries its own     *)
@@ -68,6 +68,7 @@ ShapeAlpha(dd) == CASE dd = AwkU -> AwkUShape
                     [] dd = AwkD       -> AwkShape
                     [] dd.id \in {", ", ",|, "} -> CSpShape
                     [] dd.id = "TAB"   -> TabShape
+                    [] dd.id = "b*"    -> {"e~", "b", ","}
                     [] dd.id = "[,:]"  -> CColShape
                     [] OTHER           -> CommaShape
 ShapeLen(dd) == IF dd.kind # "awk" /\ dd.id \in {", ", ",|, ", "[,:]", "e~bxv", "[e~bxv]"} THEN 6 ELSE 7      \* AWK: 4 fields need 7 symbols
